@@ -9,7 +9,7 @@ HEADER = """C07 - iterators traverse completely and in order; one-step mutation 
     element's position; zip iterators advance in lockstep and stop at the shorter container.
     CC_Deque's iter_add / zip_iter_add inherit the known cc_deque_add_at defect (D17): their lemma carries the
     model's branch guard."""
-IMPORTS = """From Coq Require Import Permutation Sorted.\nFrom CC Require Import Base.Prelude Base.Alloc Base.Ledger Generated.Status Generated.Constants Generated.Guards.\nFrom CC Require Import Rbuf.RbufModel SPool.SPoolModel DPool.DPoolModel Array.ArrayModel Deque.DequeModel PQueue.PQueueModel Hash.HashModel Tst.TstModel Tree.TreeModel.\n@MODULES@\nLocal Open Scope N_scope."""
+IMPORTS = """From Coq Require Import Permutation Sorted.\nFrom CC Require Import Base.Prelude Base.Alloc Base.Ledger Generated.Status Generated.Constants Generated.Guards.\nFrom CC Require Import Rbuf.RbufModel SPool.SPoolModel DPool.DPoolModel Array.ArrayModel Deque.DequeModel PQueue.PQueueModel Hash.HashModel Tst.TstModel Tree.TreeModel List_.ListModel SList.SListModel.\n@MODULES@\nLocal Open Scope N_scope."""
 THEOREMS = [
   ("C07_array_next", "it_next_spec", "CC_Array / CC_Stack (the stack iterator is the array iterator)"),
   ("C07_array_traversal", "it_collect_spec", "a traversal from cursor k yields exactly the elements from k on"),
@@ -35,4 +35,24 @@ THEOREMS = [
   ("C07_tst_enumeration", "tst_enumeration", ""),
   ("C07_treetable_inorder", "T_inorder", "CC_TreeTable / CC_TreeSet: every key once, strictly ascending, then ITER_END"),
   ("C07_treetable_remove", "T_iter_remove", ""),
+  ("C07_list_next_yield", "List_:iter_next_yield", "CC_List forward iterator"),
+  ("C07_list_next_end", "List_:iter_next_end", ""),
+  ("C07_list_fresh_complete", "List_:iter_fresh_complete", ""),
+  ("C07_list_index", "List_:iter_index_spec", ""),
+  ("C07_list_replace", "List_:iter_replace_spec", ""),
+  ("C07_list_remove", "List_:iter_remove_spec", ""),
+  ("C07_list_add", "List_:iter_add_spec", "add after a yield (any number of adds: the last added comes first), tail kept correct"),
+  ("C07_list_diter_fresh_complete", "diter_fresh_complete", "CC_List descending iterator: the exact reverse"),
+  ("C07_list_diter_index", "diter_index_spec", ""),
+  ("C07_list_diter_remove", "diter_remove_spec", ""),
+  ("C07_list_diter_add", "diter_add_spec", ""),
+  ("C07_list_zip_next_yield", "List_:zip_next_yield", "CC_List zip iterator: lockstep"),
+  ("C07_list_zip_fresh_complete", "List_:zip_fresh_complete", "stops at the shorter list"),
+  ("C07_slist_next_yield", "siter_next_yield", "CC_SList forward iterator"),
+  ("C07_slist_fresh_complete", "siter_fresh_complete", ""),
+  ("C07_slist_index", "siter_index_spec", ""),
+  ("C07_slist_replace", "siter_replace_spec", ""),
+  ("C07_slist_remove", "siter_remove_spec", ""),
+  ("C07_slist_add", "siter_add_spec", ""),
+  ("C07_slist_zip_fresh_complete", "szip_fresh_complete", ""),
 ]
